@@ -426,7 +426,10 @@ func (h *history) crash() {
 	if len(h.n.DB.Snaps) == 0 {
 		return
 	}
-	snap := h.n.DB.Snaps[len(h.n.DB.Snaps)-1]
+	snap, diff := h.n.CrashImage()
+	if diff != "" {
+		h.mismatch("driver:c03:uncommitted-visible", "backend "+h.n.Backend+": "+diff)
+	}
 	h.notif += h.n.Notifs
 	nn, err := h.n.Reopen(snap, true)
 	h.tw.Emit(emptyEv("Crash"))
@@ -440,6 +443,9 @@ func (h *history) crash() {
 	}
 	p := h.emitProjection("Reopened", "ok")
 	for _, a := range h.n.Audit(h.t, h.nm, h.tj.MaxH, p) {
+		if a[0] == "audit:c02:expiry-order" {
+			continue // the ORDER of an expiration list is C02's statement (and open finding), not C03's
+		}
 		h.mismatch("driver:c03:"+a[0], "after reopening the committed image: "+a[1])
 	}
 	h.res.Count("reopens", 1)
@@ -454,8 +460,12 @@ func (h *history) auditSnapshots(all []int, uniqueBest int) {
 			h.mismatch("driver:c03:reopen", fmt.Sprintf("commit %d does not reopen: %v", si, err))
 			continue
 		}
+		defer nn.DB.Close()
 		p := nn.Project(h.t, h.nm, h.tj.MaxH)
 		for _, a := range nn.Audit(h.t, h.nm, h.tj.MaxH, p) {
+			if a[0] == "audit:c02:expiry-order" {
+				continue
+			}
 			h.mismatch("driver:c03:"+a[0], fmt.Sprintf("commit %d of the history reopened: %s", si, a[1]))
 		}
 		before := p.Mem
@@ -468,6 +478,9 @@ func (h *history) auditSnapshots(all []int, uniqueBest int) {
 		}
 		q := nn.Project(h.t, h.nm, h.tj.MaxH)
 		for _, a := range nn.Audit(h.t, h.nm, h.tj.MaxH, q) {
+			if a[0] == "audit:c02:expiry-order" {
+				continue
+			}
 			h.mismatch("driver:c03:catchup:"+a[0], fmt.Sprintf("commit %d after catch-up: %s", si, a[1]))
 		}
 		if uniqueBest != 0 && q.Mem != uniqueBest && !h.pruned {
@@ -544,6 +557,11 @@ func TestDriver(t *testing.T) {
 			// branch although it is SHORTER (the weight gate compares work, not height)
 			spec = TreeSpec{Seed: seed, HeavyShort: [2]int{165, 150}}
 		}
+		if mode == "durable" && reg[0] == 1000 {
+			// v1-only histories also put several contracts under one expiration height (the
+			// per-height lists db.go edits in place)
+			spec.UniqueWindows = false
+		}
 		tr := spec.Build()
 		tj, nm := tr.Abstract()
 		s := sh[hi%shards]
@@ -551,9 +569,9 @@ func TestDriver(t *testing.T) {
 		// C03: the store must be durable-consistent on a write-back cache too (chain.CacheDB over the
 		// database: what survives the process is the database, not what the cache shows)
 		backend := "mem"
-		if mode == "durable" && hi%2 == 1 {
-			backend = "cache"
-			res.Count("histories_on_cachedb", 1)
+		if mode == "durable" {
+			backend = []string{"mem", "cache", "bolt"}[hi%3]
+			res.Count("histories_on_"+backend, 1)
 		}
 		h := &history{t: tr, nm: nm, tj: tj, ti: len(s.trees), n: NewNodeOn(tr.W, backend, true), ids: map[types.BlockID]int{}, subs: map[string]*shadow{},
 			tw: s.tw, res: res, rng: rng, seed: seed, mode: mode}
@@ -694,6 +712,7 @@ func TestDriver(t *testing.T) {
 			}
 			h.auditSnapshots(order, uh)
 		}
+		h.n.DB.Close()
 		res.Eval(fmt.Sprintf("%d", seed))
 		if hi == 0 {
 			res.Sample(map[string]any{"seed": seed, "tree_parents": tj.Parent, "classes": tj.Cls, "regime": reg, "submission_order": order})
